@@ -9,7 +9,7 @@ from ..views import V
 from .. import corpus
 from .gen_access import hdr_field, level_geometry
 
-SERVES = {"C03", "C04", "C05", "C06", "C15", "C16", "C17", "C18", "C19", "C01", "C10"}
+SERVES = {"C03", "C04", "C05", "C06", "C11", "C15", "C16", "C17", "C18", "C19", "C01", "C10"}
 GH_N = [("unsigned long", "sbv_n")]
 SMALL = 1 << 16
 PB = ["kissat", "z3", "cvc5", "minisat"]
@@ -445,6 +445,29 @@ def cvisit_contracts(cs, tier):
     return out
 
 
+def constness_contracts(cs, tier):
+    """C11, compile-time half as far as overload resolution shows it: every setter is not callable on a const-byte view nor with a const cursor
+    (plain, init, dont_move, init_dont_move), is callable on mutable views (positive control); views/cursors convert only towards const"""
+    sch, g, u = cs.schema, cs.gen, cs.unit
+    out = []
+    LAB = ["const-byte view", "const cursor", "init(const cursor)", "dont_move(const cursor)", "init_dont_move(const cursor)", "const-byte view + mutable cursor"]
+    for idn, setters in g.const_roots:
+        f = u.root("r_%s_constness" % idn)
+        post = []
+        for i, m in setters:
+            for k, lab in enumerate(LAB):
+                post.append(("%s-setter-rejected-for-%s" % (m["name"], lab), "!RET.n%d[%d]" % (i, k)))
+            post.append(("%s-setter-available-on-mutable-view (detection control)" % m["name"], "RET.p%d[0] && RET.p%d[1]" % (i, i)))
+        out.append(Contract(f, "%s:%s::setters rejected for const byte types" % (cs.name, idn), props={"C11"}, pre=[], post=post, assigns=[],
+                            note="decided by clang's overload resolution while lowering (expression-validity detection); CBMC only checks the resulting constants"))
+    f = u.root("r_conversions")
+    n = len(g.levels)
+    post = [("views-convert-towards-const", " && ".join("RET.to_const[%d]" % k for k in range(n))), ("views-do-not-convert-from-const", " && ".join("!RET.from_const[%d]" % k for k in range(n))),
+            ("cursor-converts-towards-const", "RET.cur_to_const"), ("cursor-does-not-convert-from-const", "!RET.cur_from_const")]
+    out.append(Contract(f, "%s:view and cursor conversions" % cs.name, props={"C11"}, pre=[], post=post, assigns=[]))
+    return out
+
+
 def psize_contracts(cs, tier):
     """traits-level size_bytes(counts..., total_data_size) against the oracle's formula (C05)"""
     sch, g, u = cs.schema, cs.gen, cs.unit
@@ -484,6 +507,7 @@ def psize_contracts(cs, tier):
 def contracts(tier):
     out = []
     for cs in corpus.schemas(tier):
+        out += constness_contracts(cs, tier)
         out += psize_contracts(cs, tier)
         out += cvisit_contracts(cs, tier)
     for cs in corpus.schemas(tier, asserts="unchecked"):
